@@ -71,6 +71,9 @@ package shell_operator
 //@ ghost nUnlock int
 //@ ghost lastWaitHook *hook.Hook
 //@ ghost gotMeta interface{}
+// The metadata of a task as a function of the task and of the number of UpdateMetadata calls so far.
+//@ ghost metaEpoch int
+//@ specfn metaOf(t task.Task, epoch int) interface{}
 //@ ghost lastWaitErr error
 
 // Hook.Run executes the hook process with the given contexts (C12 covers its inside). It needs the
@@ -138,12 +141,240 @@ package shell_operator
 //@   loop 1
 //@     invariant nRun == old(nRun) && lastWaitHook == old(lastWaitHook) && lastWaitErr == old(lastWaitErr) && nSetAdm == old(nSetAdm) && nPatchExec == old(nPatchExec)
 
-// combineBindingContextForHook (C07): here only its ghost trace; allMergedAllowFailure says whether
-// every task merged into the head allows failure.
-//@ trusted func (*ShellOperator).combineBindingContextForHook
-//@   modifies nCombine, lastCombine, allMergedAllowFailure
+// ---- C07: combining adjacent tasks ------------------------------------------------------------
+// Accessors of task metadata as functions of the metadata value.
+//@ specfn hookNameOf(m interface{}) string
+//@ specfn ctxOf(m interface{}) []bindingcontext.BindingContext
+//@ specfn monitorIDsOf(m interface{}) []string
+//@ package github.com/flant/shell-operator/pkg/hook/task_metadata
+//@ trusted func HookNameAccessor.GetHookName
+//@   modifies nothing
+//@   ensures result == shell_operator.hookNameOf(recv)
+//@ trusted func BindingContextAccessor.GetBindingContext
+//@   modifies nothing
+//@   ensures result == shell_operator.ctxOf(recv)
+//@ trusted func MonitorIDAccessor.GetMonitorIDs
+//@   modifies nothing
+//@   ensures result == shell_operator.monitorIDsOf(recv)
+//@ package github.com/flant/shell-operator/pkg/shell-operator
+
+// a task that may be merged into the handled task `head`
+//@ pred Comb(tsk task.Task, head task.Task, hookName string, stopFn func(task.Task) bool, ep int) := metaOf(tsk, ep) != nil
+//@     && hookNameOf(metaOf(tsk, ep)) == hookName && tsk.GetType() == head.GetType() && (stopFn == nil || !stopFn(tsk))
+// task metadata implement the three accessor interfaces (documented requirement of the function)
+//@ pred MetaOK(tsk task.Task, ep int) := metaOf(tsk, ep) == nil || (implements(metaOf(tsk, ep), task_metadata.HookNameAccessor)
+//@     && implements(metaOf(tsk, ep), task_metadata.BindingContextAccessor) && implements(metaOf(tsk, ep), task_metadata.MonitorIDAccessor))
+// total number of binding contexts of ts[0..i)
+//@ specfn ctxOff(ts map[int]task.Task, ep int, i int) int
+//@   axiom i <= 0 ==> result == 0
+//@   axiom i > 0 ==> result == ctxOff(ts, ep, i-1) + len(ctxOf(metaOf(ts[i-1], ep)))
+// compaction: context j survives unless it is grouped and immediately followed by a context of the same group
+//@ pred KeepAt(cc []bindingcontext.BindingContext, j int) := cc[j].Metadata.Group == "" || j+1 >= len(cc) || cc[j+1].Metadata.Group != cc[j].Metadata.Group
+//@ specfn nKept(cc []bindingcontext.BindingContext, i int) int
+//@   axiom i <= 0 ==> result == 0
+//@   axiom i > 0 ==> result == nKept(cc, i-1) + ite(KeepAt(cc, i-1), 1, 0)
+
+// Ghost snapshots: the queue as seen by the scan (Iterate) and by the removal (Filter), the
+// concatenation before compaction.
+//@ ghost seenItems []task.Task
+//@ ghost filterItems []task.Task
+//@ ghost lastCombined []bindingcontext.BindingContext
+//@ ghost nMerged int
+// position of the task with a given id in the queue: its existence states that ids are unique
+//@ specfn queuePos(id string) int
+//@ ghost mergedTasks []task.Task
+// the merged tasks as a mathematical sequence (index -> task), fixed when the scan has finished
+//@ ghost mergedSeq map[int]task.Task
+
+// C07. With S = the queue when it is scanned, F = the queue when the merged tasks are removed
+// (F extends S: other goroutines only append), head = S[0] = the handled task and
+// M = nMerged: S[1..M] are exactly the tasks immediately following the head that are for the same
+// hook and of the same type (maximal run); the hook receives the compaction of
+// ctx(S[0]) ++ ctx(S[1]) ++ ... ++ ctx(S[M]); afterwards the queue is F without F[1..M], every
+// other task in place. nil result: nothing merged, queue untouched.
+//@ func (*ShellOperator).combineBindingContextForHook
+//@   prop C07, C04
+//@   inlines (*TaskQueue).Iterate, (*TaskQueue).Filter, (*TaskQueue).Filter$1
+//@   opt timeout=40
+//@   requires t != nil && tqs != nil
+//@   requires [same-queue] q == nil || q == tqs.Queues[t.GetQueueName()]
+//@   requires [assumed:contexts-of-queued-tasks-exist-before-the-call] forall(m, interface{}, allocated(ctxOf(m)))
+//@   requires [assumed:monitor-ids-of-queued-tasks-exist-before-the-call] forall(m, interface{}, allocated(monitorIDsOf(m)))
+//@   modifies nCombine, lastCombine, allMergedAllowFailure, seenItems, filterItems, mergedTasks, mergedSeq, lastCombined, nMerged, gotMeta, all(queue.TaskQueue.items), all(queue.TaskQueue.measureActionFn), queue.nMut, allelems(string)
+//@   let head := t
+//@   let ep := metaEpoch
+//@   let hn := hookNameOf(metaOf(t, metaEpoch))
+//@   let c0 := ctxOf(metaOf(t, metaEpoch))
 //@   ghostset nCombine := nCombine + 1
-//@   ensures lastCombine == result
+//@   ghostset lastCombine := result
+//@   ensures [no-queue]     q == nil || metaOf(t, ep) == nil ==> result == nil
+//@   ensures [merged-run]   result != nil ==> nMerged >= 1 && nMerged + 1 <= len(seenItems) && len(mergedTasks) == nMerged
+//@        && forall(k, 0, nMerged, Comb(mergedTasks[k], head, hn, stopCombineFn, ep) && mergedTasks[k] == seenItems[k+1] && mergedSeq[k] == mergedTasks[k])
+//@   ensures [maximal]      result != nil ==> nMerged + 1 == len(seenItems) || !Comb(seenItems[nMerged + 1], head, hn, stopCombineFn, ep)
+//@   ensures [nothing-to-merge] result == nil && q != nil && metaOf(t, ep) != nil ==> len(seenItems) <= 1 || !Comb(seenItems[1], head, hn, stopCombineFn, ep)
+//@   ensures [queue-after]  result != nil ==> len(q.items) == len(filterItems) - nMerged && q.items[0] == filterItems[0]
+//@        && forall(j, 1, len(q.items), q.items[j] == filterItems[j + nMerged])
+//@   ensures [concat-len]   result != nil ==> len(lastCombined) == len(c0) + ctxOff(mergedSeq, ep, nMerged)
+//@   ensures [concat-head]  result != nil ==> sameseq(lastCombined[0:len(c0)], c0)
+//@   ensures [concat-merged] result != nil ==> forall(k, 0, nMerged, sameseq(lastCombined[len(c0) + ctxOff(mergedSeq, ep, k) : len(c0) + ctxOff(mergedSeq, ep, k) + len(ctxOf(metaOf(mergedSeq[k], ep)))], ctxOf(metaOf(mergedSeq[k], ep))))
+//@   ensures [compaction-len]   result != nil ==> len(result.BindingContexts) == nKept(lastCombined, len(lastCombined))
+//@   ensures [compaction-elems] result != nil ==> forall(j, 0, len(lastCombined), KeepAt(lastCombined, j) ==> result.BindingContexts[nKept(lastCombined, j)] == lastCombined[j])
+// the scan (Iterate, under the read lock)
+//@   loop (*TaskQueue).Iterate$1#1
+//@     ghostset seenItems := q.items
+//@     invariant [assumed:handled-task-is-the-queue-head-and-ids-are-unique] len(q.items) > 0 && q.items[0] == head && forall(a, 0, len(q.items), queuePos(q.items[a].GetId()) == a)
+//@     invariant 0 <= iter() && iter() <= len(q.items) && seenItems == q.items
+//@     invariant metaEpoch == ep && hookName == hn
+//@     invariant fresh(otherTasks) && len(otherTasks) + 1 <= len(q.items)
+//@     invariant !stopIterate ==> len(otherTasks) == ite(iter() == 0, 0, iter() - 1)
+//@     invariant stopIterate ==> len(otherTasks) + 1 < iter() && !Comb(q.items[len(otherTasks) + 1], head, hn, stopCombineFn, ep)
+//@     invariant forall(k, 0, len(otherTasks), otherTasks[k] == q.items[k+1])
+//@     invariant [by-pos] forall(j, 1, len(otherTasks) + 1, q.items[j] == otherTasks[j-1])
+//@     invariant forall(k, 0, len(otherTasks), Comb(otherTasks[k], head, hn, stopCombineFn, ep) && otherTasks[k].GetId() != head.GetId())
+// the concatenation and the removal table
+//@   loop 1
+//@     ghostset mergedTasks := otherTasks
+//@     ghostset mergedSeq := seqof(otherTasks)
+//@     invariant [seq] forall(k, 0, len(otherTasks), mergedSeq[k] == otherTasks[k])
+//@     invariant [maximal] len(otherTasks) + 1 == len(seenItems) || !Comb(seenItems[len(otherTasks) + 1], head, hn, stopCombineFn, ep)
+//@     invariant [followers] len(otherTasks) + 1 <= len(seenItems) && forall(k, 0, len(otherTasks), otherTasks[k] == seenItems[k+1]) && seenItems[0] == head
+//@     invariant [seen-stable] storage(seenItems) == atloop(storage(seenItems)) && storage(otherTasks) == atloop(storage(otherTasks))
+//@     invariant [by-pos] forall(j, 1, len(otherTasks) + 1, seenItems[j] == otherTasks[j-1])
+//@     invariant [tf-pos] forall(j, 1, iter() + 1, has(tasksFilter, seenItems[j].GetId()) && !tasksFilter[seenItems[j].GetId()])
+//@     invariant 0 <= iter() && iter() <= len(otherTasks) && mergedTasks == otherTasks && metaEpoch == ep && taskMeta == metaOf(head, ep)
+//@     invariant forall(k, 0, len(otherTasks), Comb(otherTasks[k], head, hn, stopCombineFn, ep) && otherTasks[k].GetId() != head.GetId())
+//@     invariant fresh(combinedContext) && len(combinedContext) == len(c0) + ctxOff(mergedSeq, ep, iter())
+//@     invariant len(c0) <= len(combinedContext) && sameseq(combinedContext[0:len(c0)], c0)
+//@     invariant forall(k, 0, iter(), 0 <= ctxOff(mergedSeq, ep, k) && ctxOff(mergedSeq, ep, k) + len(ctxOf(metaOf(mergedSeq[k], ep))) <= ctxOff(mergedSeq, ep, iter()))
+//@     invariant forall(k, 0, iter(), sameseq(combinedContext[len(c0) + ctxOff(mergedSeq, ep, k) : len(c0) + ctxOff(mergedSeq, ep, k) + len(ctxOf(metaOf(mergedSeq[k], ep)))], ctxOf(metaOf(mergedSeq[k], ep))))
+//@     invariant tasksFilter != nil && has(tasksFilter, head.GetId()) && tasksFilter[head.GetId()]
+//@     invariant forall(k, 0, iter(), has(tasksFilter, otherTasks[k].GetId()) && !tasksFilter[otherTasks[k].GetId()])
+//@     invariant forall(id, string, has(tasksFilter, id) ==> id == head.GetId() || exists(k, 0, iter(), id == otherTasks[k].GetId()))
+// the removal (Filter, under the write lock)
+//@   loop (*TaskQueue).Filter$1#1
+//@     ghostset filterItems := q.items
+//@     ghostset nMerged := len(otherTasks)
+//@     invariant [assumed:only-appends-since-the-scan-and-ids-are-unique] len(q.items) >= len(seenItems) && forall(k, 0, len(seenItems), q.items[k] == seenItems[k])
+//@        && forall(a, 0, len(q.items), queuePos(q.items[a].GetId()) == a)
+//@     invariant 0 <= iter() && iter() <= len(q.items) && filterItems == q.items && nMerged == len(otherTasks)
+//@     invariant mergedTasks == otherTasks && storage(mergedTasks) == atloop(storage(mergedTasks)) && storage(seenItems) == atloop(storage(seenItems)) && base(newItems) != base(q.items)
+//@     invariant base(newItems) != base(otherTasks) && base(newItems) != base(seenItems) && forall(j, 0, len(newItems), newItems[j] != nil)
+//@     invariant [by-pos] forall(j, 1, len(otherTasks) + 1, seenItems[j] == otherTasks[j-1])
+//@     invariant [tf-pos] forall(j, 1, len(otherTasks) + 1, has(tasksFilter, seenItems[j].GetId()) && !tasksFilter[seenItems[j].GetId()])
+//@     invariant [c-tf1] has(tasksFilter, head.GetId()) && tasksFilter[head.GetId()]
+//@     invariant [c-tf2] forall(k, 0, len(otherTasks), has(tasksFilter, otherTasks[k].GetId()) && !tasksFilter[otherTasks[k].GetId()])
+//@     invariant [c-tf3] forall(id, string, has(tasksFilter, id) ==> id == head.GetId() || exists(k, 0, len(otherTasks), id == otherTasks[k].GetId()))
+//@     invariant [c-run] len(otherTasks) >= 1 && len(otherTasks) + 1 <= len(seenItems) && seenItems[0] == head && forall(k, 0, len(otherTasks), Comb(otherTasks[k], head, hn, stopCombineFn, ep) && otherTasks[k] == seenItems[k+1])
+//@     invariant [c-max] len(otherTasks) + 1 == len(seenItems) || !Comb(seenItems[len(otherTasks) + 1], head, hn, stopCombineFn, ep)
+//@     invariant fresh(newItems) && len(newItems) == ite(iter() == 0, 0, ite(iter() <= nMerged + 1, 1, iter() - nMerged))
+//@     invariant iter() >= 1 ==> newItems[0] == q.items[0]
+//@     invariant forall(j, nMerged + 1, iter(), newItems[j - nMerged] == q.items[j])
+// the compaction
+//@   loop 2
+//@     ghostset lastCombined := combinedContext
+//@     invariant 0 <= i && i <= len(combinedContext) && lastCombined == combinedContext && storage(combinedContext) == atloop(storage(combinedContext))
+//@     invariant fresh(compactedContext) && base(compactedContext) != base(combinedContext) && len(compactedContext) == nKept(combinedContext, i)
+//@     invariant forall(j, 0, i, 0 <= nKept(combinedContext, j) && nKept(combinedContext, j) + ite(KeepAt(combinedContext, j), 1, 0) <= nKept(combinedContext, i))
+//@     invariant forall(j, 0, i, KeepAt(combinedContext, j) ==> compactedContext[nKept(combinedContext, j)] == combinedContext[j])
+//@     invariant mergedTasks == otherTasks && nMerged == len(otherTasks)
+//@     invariant [c-run] len(otherTasks) >= 1 && len(otherTasks) + 1 <= len(seenItems) && seenItems[0] == head && forall(k, 0, len(otherTasks), Comb(otherTasks[k], head, hn, stopCombineFn, ep) && otherTasks[k] == seenItems[k+1])
+//@     invariant [c-max] len(otherTasks) + 1 == len(seenItems) || !Comb(seenItems[len(otherTasks) + 1], head, hn, stopCombineFn, ep)
+//@     invariant [c-len] len(combinedContext) == len(c0) + ctxOff(mergedSeq, ep, len(otherTasks)) && len(c0) <= len(combinedContext) && sameseq(combinedContext[0:len(c0)], c0)
+//@     invariant [c-cat] forall(k, 0, len(otherTasks), sameseq(combinedContext[len(c0) + ctxOff(mergedSeq, ep, k) : len(c0) + ctxOff(mergedSeq, ep, k) + len(ctxOf(metaOf(mergedSeq[k], ep)))], ctxOf(metaOf(mergedSeq[k], ep))))
+//@     invariant [c-queue] len(q.items) == len(filterItems) - nMerged && q.items[0] == filterItems[0] && forall(j, 1, len(q.items), q.items[j] == filterItems[j + nMerged])
+
+// The exported twin (used by addon-operator and the test generator): the same contract, the queue
+// set being op.TaskQueues.
+//@ func (*ShellOperator).CombineBindingContextForHook
+//@   prop C07
+//@   inlines (*TaskQueue).Iterate, (*TaskQueue).Filter, (*TaskQueue).Filter$1
+//@   opt timeout=40
+//@   requires t != nil && op.TaskQueues != nil
+//@   requires [same-queue] q == nil || q == op.TaskQueues.Queues[t.GetQueueName()]
+//@   requires [assumed:contexts-of-queued-tasks-exist-before-the-call] forall(m, interface{}, allocated(ctxOf(m)))
+//@   requires [assumed:monitor-ids-of-queued-tasks-exist-before-the-call] forall(m, interface{}, allocated(monitorIDsOf(m)))
+//@   modifies nCombine, lastCombine, allMergedAllowFailure, seenItems, filterItems, mergedTasks, mergedSeq, lastCombined, nMerged, gotMeta, all(queue.TaskQueue.items), all(queue.TaskQueue.measureActionFn), queue.nMut, allelems(string)
+//@   let head := t
+//@   let ep := metaEpoch
+//@   let hn := hookNameOf(metaOf(t, metaEpoch))
+//@   let c0 := ctxOf(metaOf(t, metaEpoch))
+//@   ghostset nCombine := nCombine + 1
+//@   ghostset lastCombine := result
+//@   ensures [no-queue]     q == nil || metaOf(t, ep) == nil ==> result == nil
+//@   ensures [merged-run]   result != nil ==> nMerged >= 1 && nMerged + 1 <= len(seenItems) && len(mergedTasks) == nMerged
+//@        && forall(k, 0, nMerged, Comb(mergedTasks[k], head, hn, stopCombineFn, ep) && mergedTasks[k] == seenItems[k+1] && mergedSeq[k] == mergedTasks[k])
+//@   ensures [maximal]      result != nil ==> nMerged + 1 == len(seenItems) || !Comb(seenItems[nMerged + 1], head, hn, stopCombineFn, ep)
+//@   ensures [nothing-to-merge] result == nil && q != nil && metaOf(t, ep) != nil ==> len(seenItems) <= 1 || !Comb(seenItems[1], head, hn, stopCombineFn, ep)
+//@   ensures [queue-after]  result != nil ==> len(q.items) == len(filterItems) - nMerged && q.items[0] == filterItems[0]
+//@        && forall(j, 1, len(q.items), q.items[j] == filterItems[j + nMerged])
+//@   ensures [concat-len]   result != nil ==> len(lastCombined) == len(c0) + ctxOff(mergedSeq, ep, nMerged)
+//@   ensures [concat-head]  result != nil ==> sameseq(lastCombined[0:len(c0)], c0)
+//@   ensures [concat-merged] result != nil ==> forall(k, 0, nMerged, sameseq(lastCombined[len(c0) + ctxOff(mergedSeq, ep, k) : len(c0) + ctxOff(mergedSeq, ep, k) + len(ctxOf(metaOf(mergedSeq[k], ep)))], ctxOf(metaOf(mergedSeq[k], ep))))
+//@   ensures [compaction-len]   result != nil ==> len(result.BindingContexts) == nKept(lastCombined, len(lastCombined))
+//@   ensures [compaction-elems] result != nil ==> forall(j, 0, len(lastCombined), KeepAt(lastCombined, j) ==> result.BindingContexts[nKept(lastCombined, j)] == lastCombined[j])
+// the scan (Iterate, under the read lock)
+//@   loop (*TaskQueue).Iterate$1#1
+//@     ghostset seenItems := q.items
+//@     invariant [assumed:handled-task-is-the-queue-head-and-ids-are-unique] len(q.items) > 0 && q.items[0] == head && forall(a, 0, len(q.items), queuePos(q.items[a].GetId()) == a)
+//@     invariant 0 <= iter() && iter() <= len(q.items) && seenItems == q.items
+//@     invariant metaEpoch == ep && hookName == hn
+//@     invariant fresh(otherTasks) && len(otherTasks) + 1 <= len(q.items)
+//@     invariant !stopIterate ==> len(otherTasks) == ite(iter() == 0, 0, iter() - 1)
+//@     invariant stopIterate ==> len(otherTasks) + 1 < iter() && !Comb(q.items[len(otherTasks) + 1], head, hn, stopCombineFn, ep)
+//@     invariant forall(k, 0, len(otherTasks), otherTasks[k] == q.items[k+1])
+//@     invariant [by-pos] forall(j, 1, len(otherTasks) + 1, q.items[j] == otherTasks[j-1])
+//@     invariant forall(k, 0, len(otherTasks), Comb(otherTasks[k], head, hn, stopCombineFn, ep) && otherTasks[k].GetId() != head.GetId())
+// the concatenation and the removal table
+//@   loop 1
+//@     ghostset mergedTasks := otherTasks
+//@     ghostset mergedSeq := seqof(otherTasks)
+//@     invariant [seq] forall(k, 0, len(otherTasks), mergedSeq[k] == otherTasks[k])
+//@     invariant [maximal] len(otherTasks) + 1 == len(seenItems) || !Comb(seenItems[len(otherTasks) + 1], head, hn, stopCombineFn, ep)
+//@     invariant [followers] len(otherTasks) + 1 <= len(seenItems) && forall(k, 0, len(otherTasks), otherTasks[k] == seenItems[k+1]) && seenItems[0] == head
+//@     invariant [seen-stable] storage(seenItems) == atloop(storage(seenItems)) && storage(otherTasks) == atloop(storage(otherTasks))
+//@     invariant [by-pos] forall(j, 1, len(otherTasks) + 1, seenItems[j] == otherTasks[j-1])
+//@     invariant [tf-pos] forall(j, 1, iter() + 1, has(tasksFilter, seenItems[j].GetId()) && !tasksFilter[seenItems[j].GetId()])
+//@     invariant 0 <= iter() && iter() <= len(otherTasks) && mergedTasks == otherTasks && metaEpoch == ep && taskMeta == metaOf(head, ep)
+//@     invariant forall(k, 0, len(otherTasks), Comb(otherTasks[k], head, hn, stopCombineFn, ep) && otherTasks[k].GetId() != head.GetId())
+//@     invariant fresh(combinedContext) && len(combinedContext) == len(c0) + ctxOff(mergedSeq, ep, iter())
+//@     invariant len(c0) <= len(combinedContext) && sameseq(combinedContext[0:len(c0)], c0)
+//@     invariant forall(k, 0, iter(), 0 <= ctxOff(mergedSeq, ep, k) && ctxOff(mergedSeq, ep, k) + len(ctxOf(metaOf(mergedSeq[k], ep))) <= ctxOff(mergedSeq, ep, iter()))
+//@     invariant forall(k, 0, iter(), sameseq(combinedContext[len(c0) + ctxOff(mergedSeq, ep, k) : len(c0) + ctxOff(mergedSeq, ep, k) + len(ctxOf(metaOf(mergedSeq[k], ep)))], ctxOf(metaOf(mergedSeq[k], ep))))
+//@     invariant tasksFilter != nil && has(tasksFilter, head.GetId()) && tasksFilter[head.GetId()]
+//@     invariant forall(k, 0, iter(), has(tasksFilter, otherTasks[k].GetId()) && !tasksFilter[otherTasks[k].GetId()])
+//@     invariant forall(id, string, has(tasksFilter, id) ==> id == head.GetId() || exists(k, 0, iter(), id == otherTasks[k].GetId()))
+// the removal (Filter, under the write lock)
+//@   loop (*TaskQueue).Filter$1#1
+//@     ghostset filterItems := q.items
+//@     ghostset nMerged := len(otherTasks)
+//@     invariant [assumed:only-appends-since-the-scan-and-ids-are-unique] len(q.items) >= len(seenItems) && forall(k, 0, len(seenItems), q.items[k] == seenItems[k])
+//@        && forall(a, 0, len(q.items), queuePos(q.items[a].GetId()) == a)
+//@     invariant 0 <= iter() && iter() <= len(q.items) && filterItems == q.items && nMerged == len(otherTasks)
+//@     invariant mergedTasks == otherTasks && storage(mergedTasks) == atloop(storage(mergedTasks)) && storage(seenItems) == atloop(storage(seenItems)) && base(newItems) != base(q.items)
+//@     invariant base(newItems) != base(otherTasks) && base(newItems) != base(seenItems) && forall(j, 0, len(newItems), newItems[j] != nil)
+//@     invariant [by-pos] forall(j, 1, len(otherTasks) + 1, seenItems[j] == otherTasks[j-1])
+//@     invariant [tf-pos] forall(j, 1, len(otherTasks) + 1, has(tasksFilter, seenItems[j].GetId()) && !tasksFilter[seenItems[j].GetId()])
+//@     invariant [c-tf1] has(tasksFilter, head.GetId()) && tasksFilter[head.GetId()]
+//@     invariant [c-tf2] forall(k, 0, len(otherTasks), has(tasksFilter, otherTasks[k].GetId()) && !tasksFilter[otherTasks[k].GetId()])
+//@     invariant [c-tf3] forall(id, string, has(tasksFilter, id) ==> id == head.GetId() || exists(k, 0, len(otherTasks), id == otherTasks[k].GetId()))
+//@     invariant [c-run] len(otherTasks) >= 1 && len(otherTasks) + 1 <= len(seenItems) && seenItems[0] == head && forall(k, 0, len(otherTasks), Comb(otherTasks[k], head, hn, stopCombineFn, ep) && otherTasks[k] == seenItems[k+1])
+//@     invariant [c-max] len(otherTasks) + 1 == len(seenItems) || !Comb(seenItems[len(otherTasks) + 1], head, hn, stopCombineFn, ep)
+//@     invariant fresh(newItems) && len(newItems) == ite(iter() == 0, 0, ite(iter() <= nMerged + 1, 1, iter() - nMerged))
+//@     invariant iter() >= 1 ==> newItems[0] == q.items[0]
+//@     invariant forall(j, nMerged + 1, iter(), newItems[j - nMerged] == q.items[j])
+// the compaction
+//@   loop 2
+//@     ghostset lastCombined := combinedContext
+//@     invariant 0 <= i && i <= len(combinedContext) && lastCombined == combinedContext && storage(combinedContext) == atloop(storage(combinedContext))
+//@     invariant fresh(compactedContext) && base(compactedContext) != base(combinedContext) && len(compactedContext) == nKept(combinedContext, i)
+//@     invariant forall(j, 0, i, 0 <= nKept(combinedContext, j) && nKept(combinedContext, j) + ite(KeepAt(combinedContext, j), 1, 0) <= nKept(combinedContext, i))
+//@     invariant forall(j, 0, i, KeepAt(combinedContext, j) ==> compactedContext[nKept(combinedContext, j)] == combinedContext[j])
+//@     invariant mergedTasks == otherTasks && nMerged == len(otherTasks)
+//@     invariant [c-run] len(otherTasks) >= 1 && len(otherTasks) + 1 <= len(seenItems) && seenItems[0] == head && forall(k, 0, len(otherTasks), Comb(otherTasks[k], head, hn, stopCombineFn, ep) && otherTasks[k] == seenItems[k+1])
+//@     invariant [c-max] len(otherTasks) + 1 == len(seenItems) || !Comb(seenItems[len(otherTasks) + 1], head, hn, stopCombineFn, ep)
+//@     invariant [c-len] len(combinedContext) == len(c0) + ctxOff(mergedSeq, ep, len(otherTasks)) && len(c0) <= len(combinedContext) && sameseq(combinedContext[0:len(c0)], c0)
+//@     invariant [c-cat] forall(k, 0, len(otherTasks), sameseq(combinedContext[len(c0) + ctxOff(mergedSeq, ep, k) : len(c0) + ctxOff(mergedSeq, ep, k) + len(ctxOf(metaOf(mergedSeq[k], ep)))], ctxOf(metaOf(mergedSeq[k], ep))))
+//@     invariant [c-queue] len(q.items) == len(filterItems) - nMerged && q.items[0] == filterItems[0] && forall(j, 1, len(q.items), q.items[j] == filterItems[j + nMerged])
 
 //@ package github.com/flant/shell-operator/pkg/task
 // Assumed type invariant of task metadata: a HookRun task of a kubernetes binding carries at least
@@ -151,9 +382,13 @@ package shell_operator
 //@ trusted func Task.GetMetadata
 //@   modifies shell_operator.gotMeta
 //@   ghostset shell_operator.gotMeta := result
+//@   ensures result == shell_operator.metaOf(recv, shell_operator.metaEpoch)
+// Assumed (documented requirement of the combine functions): task metadata implement the accessor interfaces.
+//@   ensures result == nil || (implements(result, task_metadata.HookNameAccessor) && implements(result, task_metadata.BindingContextAccessor) && implements(result, task_metadata.MonitorIDAccessor))
 //@   ensures dyntype(result, task_metadata.HookMetadata) && result.(task_metadata.HookMetadata).BindingType == "kubernetes" ==> len(result.(task_metadata.HookMetadata).BindingContext) > 0
 //@ trusted func Task.UpdateMetadata
-//@   modifies shell_operator.nUpdateMeta, shell_operator.lastMeta
+//@   modifies shell_operator.nUpdateMeta, shell_operator.lastMeta, shell_operator.metaEpoch
+//@   ghostset shell_operator.metaEpoch := shell_operator.metaEpoch + 1
 //@   ghostset shell_operator.nUpdateMeta := shell_operator.nUpdateMeta + 1
 //@   ghostset shell_operator.lastMeta := arg0
 //@ package github.com/flant/shell-operator/pkg/hook
@@ -176,7 +411,9 @@ package shell_operator
 //@ func (*ShellOperator).taskHandleHookRun
 //@   prop C04, C18, C14
 //@   requires op.HookManager != nil && op.TaskQueues != nil && t != nil
-//@   modifies nRun, ranContexts, ranErr, nCombine, lastCombine, allMergedAllowFailure, nUpdateMeta, lastMeta, nUnlock, lastWaitHook, lastWaitErr, lastHookResult, lastHookErr, nSetAdm, lastAdmProp, nPatchExec, gotMeta, rate.lastWaitLimiter, rate.lastLimiterErr
+//@   modifies nRun, ranContexts, ranErr, nCombine, lastCombine, allMergedAllowFailure, nUpdateMeta, lastMeta, nUnlock, lastWaitHook, lastWaitErr, lastHookResult, lastHookErr, nSetAdm, lastAdmProp, nPatchExec, gotMeta, metaEpoch, rate.lastWaitLimiter, rate.lastLimiterErr
+//@   modifies seenItems, filterItems, mergedTasks, mergedSeq, lastCombined, nMerged, all(queue.TaskQueue.items), all(queue.TaskQueue.measureActionFn), queue.nMut, allelems(string)
+//@   let ep0 := old(metaEpoch)
 //@   ensures [at-most-one-run]      nRun == old(nRun) || nRun == old(nRun) + 1
 //@   ensures [status/skipped]       nRun == old(nRun) ==> result.Status == "Success" || result.Status == "Repeat"
 //@   ensures [status/repeat]        result.Status == "Repeat" ==> nRun == old(nRun) && lastWaitErr != nil
@@ -185,8 +422,8 @@ package shell_operator
 //@   ensures [ran-combined]         nRun == old(nRun) + 1 && nCombine == old(nCombine) + 1 && lastCombine != nil ==> ranContexts == lastCombine.BindingContexts
 //@   ensures [retry-keeps-contexts] nCombine == old(nCombine) + 1 && lastCombine != nil ==> nUpdateMeta > old(nUpdateMeta) && dyntype(lastMeta, task_metadata.HookMetadata)
 //@        && lastMeta.(task_metadata.HookMetadata).BindingContext == lastCombine.BindingContexts
-//@   ensures [failed-strict]        nRun == old(nRun) + 1 && ranErr != nil && (nCombine == old(nCombine) || lastCombine == nil) && dyntype(gotMeta, task_metadata.HookMetadata)
-//@        && !gotMeta.(task_metadata.HookMetadata).AllowFailure ==> result.Status == "Fail"
+//@   ensures [failed-strict]        nRun == old(nRun) + 1 && ranErr != nil && (nCombine == old(nCombine) || lastCombine == nil) && dyntype(metaOf(t, ep0), task_metadata.HookMetadata)
+//@        && !metaOf(t, ep0).(task_metadata.HookMetadata).AllowFailure ==> result.Status == "Fail"
 //@   ensures [response-needs-success] nSetAdm > old(nSetAdm) ==> ranErr == nil && nRun == old(nRun) + 1
 //@   ensures [allow-merged @C04]    nRun == old(nRun) + 1 && ranErr != nil && result.Status == "Success" && nCombine == old(nCombine) + 1 && lastCombine != nil ==> allMergedAllowFailure
 //@   ensures [unlock-after-success] nUnlock > old(nUnlock) ==> result.Status == "Success"
